@@ -552,6 +552,90 @@ def decode_stat(ev):
     return "%s => %s" % (kind, ret if ret.startswith("err") or ret == "ok" else ret.split(":")[0])
 
 
+# =========================================================================== C10
+@plan("C10")
+def c10(tier, seed):
+    run = Run("C10", tier, seed)
+    rng = random.Random(seed)
+    run.model_check("MCTables", workers=4)       # cosine table, basis orthogonality
+    cmds = []
+    seeds = [1] if tier == "quick" else [1, 7, 1234567, 99991]
+    chunk = 125
+    for sd in seeds:
+        for (L, Hh) in [(256, 255), (5, 5), (300, 300)]:
+            for sign in (1, -1):
+                name = "annexA seed=%d range=-%d..%d sign=%s" % (sd, L, Hh, "+" if sign > 0 else "-")
+                for start in range(0, 10000, chunk):
+                    cmds.append({"op": "annexa", "L": L, "H": Hh, "sign": sign, "start": start, "n": chunk, "seed": sd, "set": name})
+    n_annex = len(seeds) * 6 * 10000
+    # all-zero block (both as marker and as a full block of zeros), DC-only blocks, first-row / first-column blocks
+    cmds.append({"op": "idct", "set": "zero", "blocks": [{"k": "zero", "c": [0] * 64}, {"k": "full", "c": [0] * 64},
+                                                        {"k": "dc", "c": [0] * 64}, {"k": "horiz", "c": [0] * 64}, {"k": "vert", "c": [0] * 64}]})
+    dcs = list(range(-2048, 2048)) if tier == "thorough" else sorted(set(list(range(-2048, 2048, 17)) + [-2048, -1, 1, 2047, 8, 1024, 2040, -8]))
+    for i in range(0, len(dcs), 128):
+        cmds.append({"op": "idct", "set": "dc-only", "blocks": [{"k": "dc", "c": [v] + [0] * 63} for v in dcs[i:i + 128] if v != 0]})
+    nshape = 2000 if tier == "quick" else 100000
+    for kind in ("horiz", "vert"):
+        for i in range(0, nshape, 100):
+            blocks = []
+            for _ in range(100):
+                c = [0] * 64
+                amp = rng.choice([8, 64, 512, 2047])
+                for k in range(8):
+                    if rng.random() < 0.7:
+                        c[k if kind == "horiz" else 8 * k] = rng.randrange(-amp - 1, amp + 1)
+                if kind == "horiz" and not any(c[1:8]):
+                    c[rng.randrange(1, 8)] = 1
+                if kind == "vert" and not any(c[8 * k] for k in range(1, 8)):
+                    c[8 * rng.randrange(1, 8)] = -1
+                blocks.append({"k": kind, "c": c})
+            cmds.append({"op": "idct", "set": "first-%s-only" % ("row" if kind == "horiz" else "column"), "blocks": blocks})
+    rng.shuffle(cmds)
+    run.drive_and_validate(cmds, "TraceRecon", sample=1)
+    # add the per-shard sums (plain addition) and let TLC take the Annex A verdict
+    tot = {}
+    for a in run.acc:
+        for name, v in (a or {}).items():
+            t = tot.setdefault(name, {"n": 0, "peak": 0, "se": [0] * 64, "se2": [0] * 64, "amb": 0})
+            t["n"] += v["n"]
+            t["peak"] = max(t["peak"], v["peak"])
+            t["se"] = [x + y for x, y in zip(t["se"], v["se"])]
+            t["se2"] = [x + y for x, y in zip(t["se2"], v["se2"])]
+            t["amb"] += v.get("amb", 0)
+    annex = {k: v for k, v in tot.items() if k.startswith("annexA")}
+    for k, v in annex.items():
+        if v["n"] != 10000:
+            run.tool_errors.append("Annex A set %s has %d blocks, expected 10000" % (k, v["n"]))
+    if annex:
+        sp = os.path.join(run.work, "stats.json")
+        json.dump(annex, open(sp, "w"))
+        r = core.run_tlc("AnnexAVerdict", env={"STATS": sp}, workdir=run.work)
+        run.states += r.distinct
+        run.transitions += r.generated
+        if r.error:
+            run.tool_errors.append("AnnexAVerdict: %s\n%s" % (r.error, r.raw_tail))
+        for d in r.diags:
+            run.impl_diags.append((d, [{"op": "annexa-statistics", "stats": annex.get(d["detail"].get("set"))}]))
+        run.notes["annex_a_verdicts"] = [json.loads(x[8:]) for x in r.prints if x.startswith("VERDICT ")]
+    run.notes["samples_on_a_rounding_boundary_of_the_reference"] = sum(v["amb"] for v in tot.values())
+    run.notes["blocks"] = {k: v["n"] for k, v in tot.items()}
+    run.evaluations = sum(v["n"] for v in tot.values())
+    run.nontrivial = run.evaluations
+    run.exhaustive = tier == "thorough"
+    run.assumptions = ["the double-precision reference IDCT of Annex A is replaced by the two-limb fixed-point ideal transform of "
+                       "Recon.tla (error < 2^-10); where the ideal value is within that error of a rounding boundary the check is "
+                       "lenient (the nearer neighbour is taken as the reference), never strict",
+                       "the forward DCT that produces the Annex A test blocks runs in the driver in double precision: it only "
+                       "produces inputs"]
+    return run.finish(
+        rule="the complete Annex A procedure: %d pseudo-random blocks (generator seed(s) %s; ranges -256..255, -5..5, -300..300 and "
+             "their negations, 10000 blocks each) through the real idct_channel; TLC computes the ideal transform of every block, "
+             "requires every sample inside the eps(F) band and within 1 of the rounded ideal value, accumulates error and squared-"
+             "error sums per position, and evaluates the five Annex A thresholds per data set in TLA+ (AnnexAVerdict); plus the "
+             "all-zero block, %d DC-only blocks and 2 x %d first-row / first-column blocks over -2048..2047 through the sparse "
+             "shortcuts" % (n_annex, seeds, len(dcs), nshape))
+
+
 # =========================================================================== C17
 def split_threads(evs):
     """events of a "threads" command -> one trace per instance (each starts with "new"), then the digests of replicas"""
@@ -1095,4 +1179,4 @@ def replay(pid, path, seed):
 
 
 REPLAY_MODULE = {"C07": "TraceYuv", "C08": "TraceYuv", "C09": "TraceDeblock", "C16": "TraceDeblock", "C14": "TraceBitReader", "C02": "TraceDecoder", "C03": "TraceDecoder", "C04": "TraceDecoder", "C05": "TraceDecoder", "C15": "TraceDecoder",
-                 "C01": "TraceDecoder", "C17": "TraceDecoder", "C11": "TraceDecoder", "C13": "TraceDecoder"}
+                 "C01": "TraceDecoder", "C17": "TraceDecoder", "C11": "TraceDecoder", "C13": "TraceDecoder", "C10": "TraceRecon", "C12": "TraceRecon"}
